@@ -87,7 +87,7 @@ def check_tree(text, root, label, fresh_spans=None):
 
     def off(pos):
         line, col = pos
-        if line < 1 or line > n_lines:
+        if line is None or col is None or line < 1 or line > n_lines:
             return None
         return ls[line - 1] + col - 1
 
@@ -98,6 +98,10 @@ def check_tree(text, root, label, fresh_spans=None):
 
     def rec(e, path, parent_span):
         tag = re.sub(r'\[\d+\]', '', path.split('.')[-1])
+        sm0 = e.source_map
+        if None in tuple(sm0['begin']) + tuple(sm0['end']):
+            add([label, 'span-undefined', tag], f'{path}: span {sm0} has no line / column')
+            return
         sm = e.source_map
         b, en = tuple(sm['begin']), tuple(sm['end'])
         sub = leaves_of(e, path, [])
@@ -148,7 +152,7 @@ def check_tree(text, root, label, fresh_spans=None):
 
 def tree_check(text):
     from rogw.tranp.implements.syntax.lark.entry import EntryOfLark, Serialization
-    src = text if text.endswith('\n') else text + '\n'
+    src = text if text.endswith(('\n', '\n\t', '\n\t\t', '\n    ')) else text + '\n'   # (a blank-only last line without newline is kept)
     try:
         tree = _state['lark'].parse(src)
     except Exception:  # noqa
@@ -176,7 +180,7 @@ def render_check(task):
     os.makedirs(os.path.join(wd, pkg), exist_ok=True)
     mod = f'{pkg}.m{idx}'
     fp = os.path.join(wd, pkg, f'm{idx}.py')
-    src = text if text.endswith('\n') else text + '\n'
+    src = text if text.endswith(('\n', '\n\t', '\n\t\t', '\n    ')) else text + '\n'
     with open(fp, 'w', newline='') as f:
         f.write(src)
     viol, n = [], 0
@@ -274,6 +278,13 @@ def run(ctx):
     sents = corpus.sentence_corpus(ctx.quick)
     reals = corpus.real_modules()
     texts = sents + corpus.block_programs() + [src for _, _, src in reals]
+    # files whose last line holds only the indentation of the open block and no newline (an editor that indents the next line)
+    def _open_tail(t):
+        last = t.rstrip('\n').split('\n')[-1]
+        ind = last[:len(last) - len(last.lstrip())]
+        return t.rstrip('\n') + '\n' + ind if ind in ('\t', '\t\t', '    ') else None
+    tails = [x for x in (_open_tail(t) for t in corpus.block_programs()) if x]
+    texts += tails
     ctx.log(f'{len(texts)} texts')
     results = pool.pmap(worker, pool.chunked(texts, 200), workers=ctx.workers, init=_init_worker, rotate=ctx.seed)
     n = rejected = 0
@@ -292,6 +303,7 @@ def run(ctx):
     # characters str.splitlines() treats as line ends but the parser does not: in a comment before the code
     seps = ['\x0c', '\x0b', '\x1c', '\x1d', '\x1e', '\x85', '\u2028', '\u2029']
     rtexts += [f'# page{c}break\n' + t for c in seps for t in base[:2]] + [t.replace('\n', '\r\n') for t in base[:3]]
+    rtexts += tails[:8]
     rtexts += ['\n\n' + t for t in base] + ['  \n\t\n' + t for t in base[:6]] + ['# c\n\n' + t for t in base[:6]] + [t.rstrip('\n') + '\n\n\n' for t in base[:6]]
     res2 = pool.pmap(render_check, list(enumerate(rtexts)), workers=ctx.workers, rotate=ctx.seed)
     quoted = 0
